@@ -574,5 +574,9 @@ for r, what in (('R61', 'mixture_model_utils / cacgmm / cACG'), ('R62', 'cwmm / 
     undecided = {'R64': ['C13'], 'R65': ['C01', 'C09', 'C14', 'C15', 'C16'], 'R66': ['C06']}.get(r, [])
     C.append(dict(id=f'N12-{r}-dataflow', kind='neutral', properties=ALLP, note=f'independent data-flow restructuring of {what}', patch=f'neutral_patches/{r}.patch', edits=[],
                   inconclusive_ok=undecided))
+# ---- seventh campaign: the broad prompt of campaign 5 again, after the builder had been reworked for campaign 6 (18-24 edits per patch)
+for r, what in (('R71', 'mixture_model_utils / cacgmm / cACG'), ('R72', 'cwmm / cbmm / Watson / Bingham / distribution.utils'), ('R73', 'gmm / gaussian / vMF / gcacgmm / vmfcacgmm'),
+                ('R74', 'beamformer / beamformer_wrapper / math.solve'), ('R75', 'permutation_alignment / initializers'), ('R76', 'mask_module / sxr_module / si_sdr / utils')):
+    C.append(dict(id=f'N13-{r}-broad-2', kind='neutral', properties=ALLP, note=f'independent broad refactoring (second set) of {what}', patch=f'neutral_patches/{r}.patch', edits=[]))
 out.write_text(json.dumps(C, indent=1))
 print(len(C), 'variants ->', out)
